@@ -35,4 +35,8 @@ def handshake (authPrefix readOnly passwd : Bytes) (isSlave : Bool) : Bytes × N
   let ro := if isSlave then readOnly else []
   (auth ++ ro, (if passwd.isEmpty then 0 else 1) + (if isSlave then 1 else 0))
 
+/-- one cycle of `Pool.monitor` (core/redis_pool.go): the node is probed, a second time after a pause if the first
+    probe failed; the auto-ban flag is cleared if either probe succeeded and set otherwise -/
+def monitorCycle (probe1 probe2 : Bool) : Bool := !(probe1 || probe2)
+
 end RcVerif.Route
